@@ -384,10 +384,16 @@ def raise_soon(x=None, ready_file=None):
 
 # ---- C18: context targets ---------------------------------------------------------------------------------------------------
 def ctx_a(x, tag='a0', exp=1):
+    if x == 'SLEEP':
+        import time as _t
+        _t.sleep(30)          # one long call the termination request cannot interrupt
     return ['a', tag, x, exp]
 
 
 def ctx_b(x, tag='b0', exp=2):
+    if x == 'SLEEP':
+        import time as _t
+        _t.sleep(30)
     return ['b', tag, x, exp]
 
 
